@@ -141,6 +141,7 @@ pub fn def(tier: Tier) -> CheckDef {
         assumptions: vec!["values or types that still contain unresolved holes are outside the explicit checker's domain (counted, not judged)"],
         idle_limit_s: 180,
         needs_cli: false,
+        fuzz: None,
         parts: vec![
             Part {
                 name: "regressions",
@@ -163,7 +164,7 @@ pub fn def(tier: Tier) -> CheckDef {
                 run: Box::new(|ctx, r| ctx.prop("generated", r, 400, 600, generated_case)),
                 replay: Some(Box::new(|ctx, inp| match inp {
                     ReplayInput::Choices(c) => generated_case(ctx, &mut Ch::new(c)),
-                    ReplayInput::Text(_) => Err(Failure::new("this part replays from choices", "")),
+                    _ => Err(Failure::new("this part replays from choices", "")),
                 })),
             },
         ],
